@@ -22,8 +22,16 @@ import (
 const (
 	verifDir = "/verif"
 	simDir   = "/verif/sim"
-	repoDir  = "/repo"
 )
+
+// repoDir is /repo; VERIF_REPO overrides it for the framework's own
+// sensitivity tests against scratch copies (never used by MANIFEST commands).
+var repoDir = func() string {
+	if v := os.Getenv("VERIF_REPO"); v != "" {
+		return v
+	}
+	return "/repo"
+}()
 
 type propSpec struct {
 	Scenarios []string
@@ -34,6 +42,11 @@ type propSpec struct {
 var props = map[string]propSpec{
 	"C01": {Scenarios: []string{"csync"}},
 	"C02": {Scenarios: []string{"csync"}},
+	"C03": {Scenarios: []string{"bcast"}},
+	"C16": {Scenarios: []string{"once"}},
+	"C17": {Scenarios: []string{"ccall"}},
+	"C11": {Scenarios: []string{"promise"}},
+	"C15": {Scenarios: []string{"ccont"}},
 }
 
 type tape struct {
